@@ -44,7 +44,10 @@ def search(run):
     if rc != 0 or js is None:
         return
     for f in [f for f in js["found"] if f["sketcher"].startswith("SuperMinHash")][:1]:
-        if True:
+        if f["sketcher"].endswith("single item"):
+            run.violation("smh-single-item-law", "SuperMinHash<f64>, single-item sketches, m=%d: %s (z = %.1f over %d sketches)" % (
+                f["m"], f["family"], f["z"], f["trials"]), {"kind": "impl-input", "input": f, "observed": f["z"], "expected": "|z| <= 7"})
+        else:
             run.violation("smh-bias", "%s, m=%d, %s: mean match fraction %.5f vs J = %.5f (z = %.1f over %d trials)" % (
                 f["sketcher"], f["m"], f["family"], f["mean"], f["j"], f["z"], f["trials"]),
                 {"kind": "impl-input", "input": f, "observed": f["mean"], "expected": f["j"]})
